@@ -226,9 +226,6 @@ def defect_classes(req):
                     a = u[f.type_name.lstrip(".")]
                     if not is_pp(a["pkg"]):
                         seen.setdefault(a["module"], set()).add(tuple(a["pkg"]))
-            attrs = [f.name + "_" if f.name in reserved else f.name for f in t["pb"].field]
-            if len(set(attrs)) != len(attrs):
-                out.setdefault("field.attr_collision", []).append((fp.name, n))
         clash = sorted(m for m, pk in seen.items() if len(pk) > 1)
         if clash:
             out.setdefault("import.pb2_same_basename", []).append((fp.name, clash))
